@@ -182,11 +182,15 @@ example : noDashKeys (.map [("a".toList, .list [.map [("b".toList, .null)]])]) =
 example : valuesAtKeyPath sample "doc.name".toList true = walk none sample ["doc".toList] := by
   rw [C20_valuesAt]
   have hs : splitDot "doc.name".toList = ["doc".toList, "name".toList] := by decide
-  simp [hs, sample, walk, loadLeaf, lookup, passSubs]
+  have hp : passSubs none = fun _ => true := rfl
+  simp only [hs]
+  simp [sample, walk, loadLeaf, lookup, hp, List.dropLast]
 
 example : valuesAtKeyPath sample "doc.zip".toList true = [] := by
   rw [C20_valuesAt]
   have hs : splitDot "doc.zip".toList = ["doc".toList, "zip".toList] := by decide
-  simp [hs, sample, walk, loadLeaf, lookup, passSubs]
+  have hp : passSubs none = fun _ => true := rfl
+  simp only [hs]
+  simp [sample, walk, loadLeaf, lookup, hp, List.dropLast]
 
 end Mxj.C20
